@@ -2038,7 +2038,9 @@ class Builder:
                     # Otherwise: free the qubits.
                     if not params.sequential:
                         for q in qubits:
-                            q.free()
+                            # NOTE: the handles stay active, since the qubits are
+                            # generated again in the next iteration.
+                            self._build_cmds_qfree(qubit_id=q.qubit_id)
 
                 loop.set_cleanup_code(cleanup)
 
@@ -2078,7 +2080,9 @@ class Builder:
                     # Otherwise: free the qubits.
                     if not params.sequential:
                         for q in qubits:
-                            q.free()
+                            # NOTE: the handles stay active, since the qubits are
+                            # generated again in the next iteration.
+                            self._build_cmds_qfree(qubit_id=q.qubit_id)
 
                 loop.set_cleanup_code(cleanup)
 
